@@ -32,6 +32,19 @@ REG = {}   # input line -> (stage, JSON-able snapshot of the case description), 
 HCACHE = {}   # input line -> harness output, filled by one interleaved run of all stages' cases in a single process
 
 
+def nonfinite_count(h):
+    """number of doubles in a harness output line that are NaN or +-inf (16-hex-digit tokens with all exponent bits set)"""
+    cnt = 0
+    for tok in h.split():
+        if len(tok) == 16:
+            try:
+                if (int(tok, 16) >> 52) & 0x7ff == 0x7ff:
+                    cnt += 1
+            except ValueError:
+                pass
+    return cnt
+
+
 def run_h(binary, lines):
     """outputs of the harness for `lines`: from the interleaved run when available"""
     if lines and all(l in HCACHE for l in lines):
@@ -413,6 +426,9 @@ def points_stage(ctx, binary, stats, hist, only=None):
         hist["points:components=%d" % k] = hist.get("points:components=%d" % k, 0) + 1
         if not h.startswith("ok"):
             prop_bad.append(("points-crash", "sigma_point()/augmentWithNoise failed on a valid mixture (%s): %s" % (key, h[:80]), line, h))
+            continue
+        if nonfinite_count(h):
+            prop_bad.append(("output-not-finite", "sigma_point() (%s, covariance style %s): %d NaN / inf entries for a finite PSD input" % (key, meta["style"], nonfinite_count(h)), line, h))
             continue
         t = h.split()
         okaug, dim, dimcov, dimnoise, xr, xc = [int(x) for x in t[1:7]]
@@ -815,9 +831,14 @@ def transform_stage(ctx, binary, stats, hist, notes, only=None):
         hist["ut:A=" + meta["astyle"]] = hist.get("ut:A=" + meta["astyle"], 0) + 1
         hist["ut:P=" + meta["pstyle"]] = hist.get("ut:P=" + meta["pstyle"], 0) + 1
         hist["ut:scale=" + meta.get("scale", "?")] = hist.get("ut:scale=" + meta.get("scale", "?"), 0) + 1
+        nf = nonfinite_count(h) if h.startswith("ok") else 0
         try:
+            if nf:
+                raise ArithmeticError("non-finite")
             probs, o, Bs = check_ut_case(line, meta, h, stats, notes)
-        except (IndexError, ValueError, ArithmeticError) as e:
+        except ArithmeticError:
+            probs, o, Bs = [("prop", "output-not-finite", "unscented_transform (%s overload): %d NaN / inf entries in the sigma points or in the transformed moments for a finite input" % (meta["mode"], max(nf, 1)))], None, None
+        except (IndexError, ValueError) as e:
             probs, o, Bs = [("prop", "ut-output-malformed", "unscented_transform (%s overload): output not of the expected form (%s): %s" % (meta["mode"], type(e).__name__, h[:80]))], None, None
         first.append((probs, o, Bs))
         if Bs is not None or (o is not None and not meta["valid"]):
@@ -1375,8 +1396,13 @@ def circ_stage_impl(ctx, binary, stats, hist, notes, only=None):
             probs.append(("prop", "ut-crash" if meta["valid"] else "ut-crash-on-failure", "unscented_transform failed on a valid input with circular components (%s): %s" % (kind, h[:80])))
         else:
             try:
+                if nonfinite_count(h):
+                    raise ArithmeticError("non-finite")
                 o = parse_utc_out(h, meta)
-            except (IndexError, ValueError, ArithmeticError) as e:
+            except ArithmeticError:
+                o = None
+                probs.append(("prop", "output-not-finite", "unscented_transform with circular components (%s): %d NaN / inf entries for a finite input" % (kind, max(nonfinite_count(h), 1))))
+            except (IndexError, ValueError) as e:
                 o = None
                 probs.append(("prop", "ut-output-malformed", "unscented_transform with circular components: output not of the expected form (%s): %s" % (type(e).__name__, h[:80])))
             n = li.dof
